@@ -3,6 +3,8 @@ from core import Case
 from . import proggen as G
 
 ID = "C14"
+# override-kinds cases: the model IS the property there - literal_reaches_operand_override(_def) hold for a scope of any declared kinds
+SPEC_IS_ORACLE = lambda c: "override-kinds" in c.tags
 THEOREMS = [
     "Portus.C14.digitsVal_repr", "Portus.C14.numeral_parses_exactly", "Portus.C14.numeral_value_lt",
     "Portus.C14.numeral_of_value", "Portus.C14.infinity_parses", "Portus.C14.imm_encoding",
@@ -78,6 +80,22 @@ def gen(ctx):
         for nm in ("gain", "Report.y", "Rate", "Cwnd", "a", "c", "g", "Report.x", "Micros"):
             for v in (9, 2**31 - 1):
                 yield Case("CMP", "%s %s=%d %s" % (G.hx(src), G.hx(nm), v, G.hx(nm)), tags=("duplicate-names", "-"))
+    # overrides of variables of EVERY declared kind (number / boolean / +infinity, Report / control, volatile or not) with boundary
+    # values: the supplied number is the variable's initial value - whatever the declared kind - or the compilation is refused
+    KINDS = "(def (Report (rn 0) (rb true) (volatile rvb false) (ri +infinity)) (cn 5) (cb false) (volatile cvb true) (ci +infinity))"
+    KNAMES = ("Report.rn", "Report.rb", "Report.rvb", "Report.ri", "cn", "cb", "cvb", "ci")
+    BODIES = ("(when true (:= Report.rn cn) (report))",
+              "(when (&& cb true) (:= Report.rn 1) (report)) (when (|| Report.rb cvb) (:= Report.rn 2) (report))",
+              "(when (> cn 3) (:= Report.rn (+ ci Report.ri)) (:= cb (> cn 1)) (report))")
+    names_arg = ";".join(G.hx(n) for n in KNAMES)
+    for body in BODIES:
+        for nm in KNAMES:
+            for v in (0, 1, 2, 3, 5, 255, 2**31 - 1, 2**31, 2**32 - 1):
+                yield Case("CMP", "%s %s=%d %s" % (G.hx(KINDS + " " + body), G.hx(nm), v, names_arg), tags=("override-kinds", "-"))
+        for _ in range(10):   # several overrides at once, in either order
+            k = rng.sample(KNAMES, rng.choice([2, 3, 8]))
+            yield Case("CMP", "%s %s %s" % (G.hx(KINDS + " " + body), ";".join("%s=%d" % (G.hx(n), rng.choice([0, 1, 2, 7, 2**31 - 1, 2**31])) for n in k), names_arg),
+                       tags=("override-kinds", "-"))
     # +infinity and literals inside generated programs (correspondence only)
     yield Case("CMP", "%s - -" % G.hx(T_OPERAND % "+infinity"), tags=("infinity", "-"))
     yield Case("CMP", "%s - -" % G.hx(T_DEFINITION % "+infinity"), tags=("infinity", "-"))
